@@ -2,6 +2,7 @@
 from __future__ import annotations
 
 from .. import valsweep
+from ..purity import check_path
 from ..report import Ctx
 
 EXPLANATION = (
@@ -18,4 +19,8 @@ EXPLANATION = (
 def check(ctx: Ctx) -> None:
     ctx.model.func("ahbicht.validation.validation.validate_data_element_valuepool")
     ctx.soft(lambda: valsweep.report(ctx, ("C17.pool",)))
+    # the table above is extracted one validation at a time: nothing on the path may remember an earlier validation
+    # (a cache of entry verdicts keyed by expression text survives a change of the condition states, C17-r2)
+    ctx.soft(lambda: check_path(ctx, "C17.state", ["ahbicht.validation.validation.validate_data_element_valuepool", "ahbicht.validation.validation.validate_data_element"],
+                                "the offered values must depend on this validation's condition states only"))
     ctx.assume("entry expressions are evaluated by the summarised pipeline (reference semantics)")
